@@ -405,3 +405,162 @@ fn c05_mutex_cancelled_waiter_d1() {
         Err(_) => assert!(false, "C09: Poisoned from a mutex nobody panicked in"),
     }
 }
+
+// ---------------------------------------------------------------------------------------------
+// Twin of the cancelled-waiter harness with the roles exchanged: the *holder's unlock* is the
+// root (real Mutex::unlock / unpark_one / SyncBlocker::unpark), and the cancelled waiter's
+// give-up hand-shake lands at any atomic step of it.  The waiter registered and parked *before*
+// the unlock began, so its continuation cannot be a nested call of the real lock(); it is a
+// MIRROR of the Canceled arm of Mutex::lock (the six lines after park returned), tied to the
+// source text by the runner (INDEX "mirrors").  Each side's real code is under test in one of
+// the two twins.
+// ---------------------------------------------------------------------------------------------
+static mut TW_W: Option<Arc<SyncBlocker>> = None;
+static mut TW_GAVE_UP: bool = false;
+/// MIRROR of src/sync/mutex.rs, Mutex::lock, `Err(ParkError::Canceled) => { .. }` for a waiter
+/// whose cancel is not disabled (b_ignore == false)
+fn mirror_cancelled_waiter_gives_up() {
+    unsafe {
+        let cur = TW_W.as_ref().unwrap();
+        let m = &*M;
+        // check the unpark status
+        if cur.is_unparked() {
+            m.unlock();
+        } else {
+            // register
+            cur.set_release();
+            // re-check unpark status
+            if cur.is_unparked() && cur.take_release() {
+                m.unlock();
+            }
+        }
+        // ... trigger_cancel_panic(): the waiter is gone
+        TW_GAVE_UP = true;
+    }
+}
+fn tw_hook() {
+    unsafe {
+        if np::DEPTH == 0 && !TW_GAVE_UP && kani::any() {
+            np::nested(mirror_cancelled_waiter_gives_up);
+        }
+    }
+}
+fn tw_park_unreachable(_b: &Blocker, _t: Option<std::time::Duration>) -> Result<(), ParkError> {
+    assert!(false, "model: nobody parks in this harness");
+    kani::assume(false);
+    Ok(())
+}
+#[kani::proof]
+#[kani::unwind(4)]
+#[kani::stub(core::sync::atomic::Atomic::<usize>::compare_exchange, sa::usize_cas)]
+#[kani::stub(core::sync::atomic::Atomic::<usize>::fetch_add, sa::usize_fetch_add)]
+#[kani::stub(core::sync::atomic::Atomic::<usize>::fetch_sub, sa::usize_fetch_sub)]
+#[kani::stub(core::sync::atomic::Atomic::<bool>::load, sa::bool_load)]
+#[kani::stub(core::sync::atomic::Atomic::<bool>::store, sa::bool_store)]
+#[kani::stub(core::sync::atomic::Atomic::<bool>::swap, sa::bool_swap)]
+#[kani::stub(may_queue::mpsc::Queue::push, q_push)]
+#[kani::stub(may_queue::mpsc::Queue::pop, q_pop)]
+#[kani::stub(crate::sync::blocking::Blocker::park, tw_park_unreachable)]
+#[kani::stub(crate::sync::blocking::Blocker::unpark, unpark_model)]
+#[kani::stub(crate::coroutine_impl::is_coroutine, is_coroutine_false)]
+#[kani::stub(std::thread::panicking, np::panicking_stub)]
+#[kani::stub(stdpanic::catch_unwind, rt::catch_unwind_stub)]
+#[kani::stub(stdpanic::take_hook, rt::take_hook_stub)]
+#[kani::stub(stdpanic::set_hook, rt::set_hook_stub)]
+#[kani::stub(std::sync::Arc::drop_slow, rt::arc_drop_slow_stub)]
+fn c05_mutex_unlock_vs_cancelled_waiter_d1() {
+    let m: &'static Mutex<u8> = Box::leak(Box::new(Mutex::new(0u8)));
+    unsafe {
+        M = m;
+        // pre-state, built with the real calls in the order Mutex::lock performs them: H holds the
+        // lock, W has registered (blocker queued, count incremented) and is parked
+        let g = m.lock().unwrap();
+        let w = SyncBlocker::current();
+        m.to_wake.push(w.clone());
+        let old = m.cnt.fetch_add(1, Ordering::SeqCst);
+        assert!(old == 1);
+        TW_W = Some(w);
+        np::HOOK = Some(tw_hook);
+        // root: the holder releases; W's cancel lands anywhere inside (or after)
+        drop(g);
+        np::HOOK = None;
+        kani::cover!(TW_GAVE_UP && np::PREEMPTS > 0, "the waiter gave up inside the holder's unlock");
+        if !TW_GAVE_UP {
+            mirror_cancelled_waiter_gives_up();
+        }
+        // W is gone and H has released: nobody holds the mutex
+        assert!(*m.cnt.as_ptr() == 0, "C05/C09: mutex left locked: the lock was handed to a cancelled waiter and not passed on");
+        match m.try_lock() {
+            Err(TryLockError::WouldBlock) => assert!(false, "C05/C09: try_lock refused although nobody holds the mutex"),
+            Ok(g) => std::mem::forget(g),
+            Err(TryLockError::Poisoned(e)) => std::mem::forget(e),
+        }
+    }
+}
+
+// ---- C13: a mutex guard dropped by a panic poisons *before* it releases --------------------------
+static mut PC_LEFT: bool = false;
+static mut PC_GOT_OK: bool = false;
+static mut PC_GOT_ANY: bool = false;
+fn run_pcontender() {
+    unsafe {
+        PC_LEFT = false;
+        np::nested(|| match (*M).try_lock() {
+            Ok(g) => {
+                PC_GOT_OK = true;
+                PC_GOT_ANY = true;
+                std::mem::forget(g);
+            }
+            Err(TryLockError::Poisoned(e)) => {
+                PC_GOT_ANY = true;
+                std::mem::forget(e);
+            }
+            Err(TryLockError::WouldBlock) => {}
+        });
+    }
+}
+fn hook_pcontender() {
+    unsafe {
+        if np::DEPTH == 0 && PC_LEFT && kani::any() {
+            run_pcontender();
+        }
+    }
+}
+#[kani::proof]
+#[kani::unwind(4)]
+#[kani::stub(core::sync::atomic::Atomic::<usize>::compare_exchange, sa::usize_cas)]
+#[kani::stub(core::sync::atomic::Atomic::<usize>::fetch_sub, sa::usize_fetch_sub)]
+#[kani::stub(core::sync::atomic::Atomic::<usize>::load, sa::usize_load)]
+#[kani::stub(core::sync::atomic::Atomic::<usize>::store, sa::usize_store)]
+#[kani::stub(may_queue::mpsc::Queue::push, q_push)]
+#[kani::stub(may_queue::mpsc::Queue::pop, q_pop)]
+#[kani::stub(crate::sync::blocking::Blocker::park, tw_park_unreachable)]
+#[kani::stub(crate::sync::blocking::Blocker::unpark, unpark_model)]
+#[kani::stub(crate::coroutine_impl::is_coroutine, is_coroutine_false)]
+#[kani::stub(std::thread::panicking, np::panicking_stub)]
+#[kani::stub(stdpanic::catch_unwind, rt::catch_unwind_stub)]
+#[kani::stub(stdpanic::take_hook, rt::take_hook_stub)]
+#[kani::stub(stdpanic::set_hook, rt::set_hook_stub)]
+#[kani::stub(std::sync::Arc::drop_slow, rt::arc_drop_slow_stub)]
+fn c13_mutex_panicking_holder_drop_vs_contender() {
+    let m: &'static Mutex<u8> = Box::leak(Box::new(Mutex::new(0u8)));
+    let g = m.lock().unwrap();
+    unsafe {
+        M = m;
+        PC_LEFT = true;
+        np::PANICKING = true;
+        np::HOOK = Some(hook_pcontender);
+    }
+    drop(g);
+    unsafe {
+        np::HOOK = None;
+        np::PANICKING = false;
+        let inside = !PC_LEFT;
+        if PC_LEFT {
+            run_pcontender();
+        }
+        assert!(!PC_GOT_OK, "C13: try_lock returned Ok although the holder panicked inside the guard (poison flag set too late)");
+        assert!(m.is_poisoned());
+        kani::cover!(inside && PC_GOT_ANY, "contender got in while the panicking holder's drop was still running");
+    }
+}
